@@ -287,15 +287,19 @@ def bits_sessions(rnd, n, prefix="bits"):
         nd = rnd.choice([1, 2, 2, 3, 4])
         nb = 32 * nd
         big = [{"name": "Flags", "code": 0xD3, "dims": [nd]}, {"name": "Wd", "code": rnd.choice([0xC2, 0xC3, 0xC4, 0xC5]), "dims": []},
-               {"name": "Wa", "code": 0xC4, "dims": [3]}]
+               {"name": "Wa", "code": 0xC4, "dims": [3]}, {"name": "OA", "udt": "Outer", "dims": [3]}]
         sc = session(rnd, i, prefix=prefix, n_calls=0, big=big, n_tags=2)
         width = {0xC2: 8, 0xC3: 16, 0xC4: 32, 0xC5: 64}[big[1]["code"]]
         reads = [R([("Flags", [j])]) for j in sorted({0, 1, 31, 32 % nb, nb - 1, nb - 2, rnd.randint(0, nb - 1)})]
         reads += [R([("Flags", [j])], count=nb - j) for j in sorted({0, nb - 32, nb - 1, nb - 2, 32 % nb})]
         reads += [R([("Flags", [])], count=c) for c in sorted({nb, 32, nb - 1, 2})] + [R([("Flags", [])])]
         reads += [R([("Wd", [])], bit=b) for b in sorted({0, 1, width - 1, rnd.randint(0, width - 1)})] + [R([("Wa", [2])], bit=31)]
+        # a BOOL-array member below an indexed level (Outer.flags is BOOL[64])
+        reads += [R([("OA", [2]), ("flags", [40])]), R([("OA", [1]), ("flags", [33])]), R([("OA", [0]), ("flags", [5])]), R([("OA", [1]), ("flags", [32])], count=8)]
         rnd.shuffle(reads)
-        calls = [{"api": "open"}, S.read_call(reads[:len(reads) // 2]), S.read_call(reads[len(reads) // 2:])]
+        calls = [{"api": "open"}, S.read_call(reads[:len(reads) // 2]), S.read_call(reads[len(reads) // 2:]),
+                 S.write_call([R([("OA", [2]), ("flags", [40])], value=True), R([("OA", [1]), ("flags", [63])], value=False)]),
+                 S.read_call([R([("OA", [2]), ("flags", [40])]), R([("OA", [1]), ("flags", [63])]), R([("OA", [2]), ("flags", [0])], count=64)])]
         b1, b2 = rnd.sample(range(width), 2)
         dup = [R([("Wd", [])], bit=b1, value=False), R([("Wd", [])], bit=b2, value=True), R([("Wd", [])], bit=b1, value=True)]
         if rnd.random() < 0.5:
